@@ -1,6 +1,7 @@
 import RtenVerif.Lemmas.Ctc
 import RtenVerif.Lemmas.CtcBound
 import RtenVerif.Lemmas.CtcExact
+import RtenVerif.Lemmas.CtcNoPrune
 
 /-!
 # C39 — CTC decoding returns distinct, correctly scored hypotheses
@@ -18,8 +19,12 @@ Property theorems over `RtenVerif.Model.Ctc` (model of `/repo/src/ctc.rs` after 
   the (blank-ending, non-blank-ending) parts of the total weight of all alignments of its
   label sequence, hence score ≤ exact total probability (`exactTotal`, a brute-force sum
   over all `L^T` alignments).  Float `log_sum_exp` rounding is outside the model (tested by
-  the harness with a tolerance).  S4 (equality when nothing is pruned) is not proved; the
-  harness tests it against brute force.
+  the harness with a tolerance).
+* **F** (finite scores) over `natOps`: if every row has a positive entry, the all-zero
+  fallback never fires and every returned score is non-zero (`c39_scores_finite`).
+* **S4** over `natOps`: if no extension of non-zero probability is ever dropped (`noPrune`),
+  every score *equals* the exact total and every label sequence of positive probability is
+  in the beam (`c39_beam_exact_when_unpruned`).
 -/
 namespace RtenVerif.Ctc
 
@@ -393,5 +398,153 @@ the exact total 7. -/
 example : (decodeBeamNbest natOps 1 1 2 [[1, 2], [2, 1]]).map
     (·.map fun h => (labels h.steps, h.score, exactTotal 2 [[1, 2], [2, 1]] (labels h.steps))) =
     some [([1], 6, 7)] := by decide
+
+/-! ## F — finite scores: the all-zero fallback never fires on proper inputs -/
+
+/-- **C39.F (step)** Over exact arithmetic, with `beam_size ≥ 1`, a beam whose states all
+have positive probability and a row with at least one positive entry, some extension has
+non-zero probability, so the "keep state 0" fallback is not taken. -/
+theorem c39_fallback_never_fires (B L : Nat) (hB : 1 ≤ B) (beam : List (BState Nat))
+    (row : List Nat) (hrow : ∃ l, l < L ∧ 0 < row.getD l 0) (h : Pos beam) :
+    ((candidates natOps L beam.length (extendAll natOps L beam row)).foldl (pushExt natOps B) []).isEmpty
+      = false :=
+  fallback_not_fired B L hB beam row hrow h
+
+/-- **C39.F** If every row of the matrix has a positive entry (in log space: a finite
+log-probability; true of every row of a probability distribution), `decode_beam_impl`
+returns a non-empty beam whose scores are all non-zero (finite in log space) — every beam
+width and label count.  Upgrades `c39_step_scores_nonzero_partial`. -/
+theorem c39_scores_finite (B L : Nat) (rows : List (List Nat))
+    (hrows : ∀ row ∈ rows, ∃ l, l < L ∧ 0 < row.getD l 0) (beam : List (BState Nat))
+    (h : decodeBeamImpl natOps B L rows = some beam) :
+    beam ≠ [] ∧ ∀ st ∈ beam, natOps.isZero (hypOf natOps st).score = false := by
+  have hinit : Pos (initBeam natOps) := by
+    refine ⟨by simp [initBeam], ?_⟩
+    intro st hst
+    simp [initBeam] at hst; subst hst; simp [natOps]
+  have hpos : Pos beam := by
+    unfold decodeBeamImpl at h
+    split at h
+    · cases h; exact hinit
+    · split at h
+      · cases h
+      · rename_i hb
+        cases h
+        exact beamLoop_pos B L (by omega) rows hrows _ _ hinit
+  refine ⟨hpos.1, ?_⟩
+  intro st hst
+  have := hpos.2 st hst
+  simp only [hypOf, natOps, beq_eq_false_iff_ne, ne_eq]
+  omega
+
+/-! ## S4 — exact scores and a complete result when nothing is pruned -/
+
+theorem dedupAdj_subset (a : List Nat) : ∀ x ∈ dedupAdj a, x ∈ a := by
+  fun_induction dedupAdj a with
+  | case1 => intro x hx; exact hx
+  | case2 y => intro x hx; exact hx
+  | case3 y r ih =>
+    intro x hx; exact List.mem_cons_of_mem _ (ih x hx)
+  | case4 y z r hne ih =>
+    intro x hx
+    rcases List.mem_cons.mp hx with rfl | hx
+    · exact List.mem_cons_self
+    · exact List.mem_cons_of_mem _ (ih x hx)
+
+theorem allAligns_lt (L : Nat) : ∀ t, ∀ a ∈ allAligns L t, ∀ x ∈ a, x < L := by
+  intro t
+  induction t with
+  | zero => intro a ha x hx; simp [allAligns] at ha; subst ha; cases hx
+  | succ t ih =>
+    intro a ha x hx
+    simp only [allAligns, List.mem_flatMap, List.mem_map, List.mem_range] at ha
+    obtain ⟨a', ha', l, hl, rfl⟩ := ha
+    rcases List.mem_append.mp hx with h | h
+    · exact ih a' ha' x h
+    · simp only [List.mem_singleton] at h; subst h; exact hl
+
+theorem exists_of_sum_pos {β : Type} (f : β → Nat) (l : List β) (h : 0 < (l.map f).sum) :
+    ∃ x, x ∈ l := by
+  cases l with
+  | nil => simp at h
+  | cons a l => exact ⟨a, List.mem_cons_self⟩
+
+/-- A label sequence of positive total probability only uses labels `1 .. L-1`. -/
+theorem exactTotal_pos_ok (L : Nat) (rows : List (List Nat)) (s : List Nat)
+    (h : 0 < exactTotal L rows s) : okSeq L s := by
+  unfold exactTotal at h
+  obtain ⟨a, ha⟩ := exists_of_sum_pos _ _ h
+  simp only [List.mem_filter, beq_iff_eq] at ha
+  obtain ⟨hmem, hcol⟩ := ha
+  intro m hm
+  rw [← hcol] at hm
+  unfold collapse at hm
+  simp only [List.mem_filter, decide_eq_true_eq] at hm
+  exact ⟨hm.2, allAligns_lt L _ a hmem m (dedupAdj_subset a m hm.1)⟩
+
+/-- **C39.S4** Over exact arithmetic: if during the whole run the number of extensions with
+non-zero probability never exceeds the beam width (`noPrune`, i.e. nothing is pruned at any
+step — decidable and executable; it holds in particular when `beam_size` is at least the
+number of label sequences of positive probability at every step), then for every well-shaped
+matrix (a) the score of every returned state **equals** the exact total probability of its
+label sequence (sum over all `L^T` alignments), and (b) the result is **complete**: every
+label sequence with positive total probability is in the beam. -/
+theorem c39_beam_exact_when_unpruned (B L : Nat) (rows : List (List Nat))
+    (hw : ∀ r ∈ rows, r.length = L) (beam : List (BState Nat))
+    (h : decodeBeamImpl natOps B L rows = some beam)
+    (hnp : noPrune natOps B L (initBeam natOps) 0 rows = true) :
+    (∀ st ∈ beam, (hypOf natOps st).score = exactTotal L rows (labels st.pre)) ∧
+    (∀ s, 0 < exactTotal L rows s → ∃ st ∈ beam, labels st.pre = s) := by
+  have hE : Exact L rows.reverse beam := by
+    unfold decodeBeamImpl at h
+    split at h
+    · rename_i he
+      cases h
+      have : rows = [] := by simpa using he
+      subst this
+      exact initBeam_exact L
+    · split at h
+      · cases h
+      · rename_i hb
+        cases h
+        have := beamLoop_exact B L (by omega) rows _ 0 [] (initBeam_exact L) hnp
+        simpa using this
+  constructor
+  · intro st hst
+    have he := hE.eq st hst
+    have hnz : ∀ m ∈ labels st.pre, m ≠ 0 := fun m hm => (hE.lr st hst m hm).1
+    rw [← dpRev_eq_exactTotal L rows hw (labels st.pre) hnz]
+    simp only [hypOf, natOps]
+    omega
+  · intro s hs
+    have hok := exactTotal_pos_ok L rows s hs
+    have hnz : ∀ m ∈ s, m ≠ 0 := fun m hm => (hok m hm).1
+    rw [← dpRev_eq_exactTotal L rows hw s hnz] at hs
+    exact hE.complete s hok hs
+
+/-- **C39.S4 (n-best)** Under the same condition every hypothesis of `decode_beam_nbest` has
+its exact score (with `n_best ≥ beam_size` the list is the whole, complete beam). -/
+theorem c39_nbest_exact_when_unpruned (B N L : Nat) (rows : List (List Nat))
+    (hw : ∀ r ∈ rows, r.length = L) (hs : List (Hyp Nat))
+    (h : decodeBeamNbest natOps B N L rows = some hs)
+    (hnp : noPrune natOps B L (initBeam natOps) 0 rows = true) :
+    ∀ hy ∈ hs, hy.score = exactTotal L rows (labels hy.steps) := by
+  unfold decodeBeamNbest at h
+  cases hb : decodeBeamImpl natOps B L rows with
+  | none => rw [hb] at h; cases h
+  | some beam =>
+    rw [hb] at h
+    simp only [Option.map_some, Option.some.injEq] at h
+    subst h
+    intro hy hhy
+    obtain ⟨st, hst, rfl⟩ := List.mem_map.mp hhy
+    exact (c39_beam_exact_when_unpruned B L rows hw beam hb hnp).1 st (List.mem_of_mem_take hst)
+
+/-- Non-vacuity: on the uniform 2×3 matrix beam 10 (indeed beam 5) prunes nothing; beam 1
+on `[[1,2],[2,1]]` does (and there the score 6 is below the exact total 7, see above). -/
+example : noPrune natOps 10 3 (initBeam natOps) 0 uniform23 = true := by decide
+example : noPrune natOps 5 3 (initBeam natOps) 0 uniform23 = true := by decide
+example : noPrune natOps 4 3 (initBeam natOps) 0 uniform23 = false := by decide
+example : noPrune natOps 1 2 (initBeam natOps) 0 [[1, 2], [2, 1]] = false := by decide
 
 end RtenVerif.Ctc
